@@ -120,42 +120,57 @@ Final(loc, fs, fuel) ==
                      nxt == IF l = ".." THEN Parent(r.p) ELSE IF l = "" THEN Root ELSE Append(r.p, l)
                  IN Final(nxt, fs, fuel - 1)
 
-Res(ok, fs, w) == [ok |-> ok, fs |-> fs, w |-> w]
+Res(ok, fs, w) == [ok |-> ok, fs |-> fs, w |-> w, late |-> {}]
+ResL(ok, fs, w, late) == [ok |-> ok, fs |-> fs, w |-> w, late |-> late]
 
 (* the location named by the last segment below the resolved parent directory *)
 Loc(par, last) == IF last = ".." THEN Parent(par) ELSE IF last = "" THEN Root ELSE Append(par, last)
 
-(* ---- one archive member extracted below directory `base` (tarfile._extract_member) -------------------------------- *)
-ApplyMember(fs, m, base) ==
-    LET par == Walk(base, Front(m.n), fs, {}, Fuel, TRUE)
+(* what setting mode / times "on path L" modifies: a final symbolic link is followed, a hard link shares its inode *)
+Touched(fs, L) == LET f == Final(L, fs, Fuel)
+                  IN IF ~f.ok \/ Kind(fs, f.p) = "none" THEN {}
+                     ELSE {f.p} \cup (IF Kind(fs, f.p) = "hard" THEN {Ent(fs, f.p).to} ELSE {})
+
+(* ---- a member of kind k (file, dir, sym) materialised at location L (tarfile.makefile / makedir / makelink) -------- *)
+Place(fs, k, t, L, w0) ==
+    CASE k = "file" ->        \* open(L, "wb") goes through a symbolic link at L; mode and times follow the same way
+            LET f == Final(L, fs, Fuel)
+                kk == Kind(fs, f.p)
+            IN IF ~f.ok \/ kk = "dir" \/ Kind(fs, Parent(f.p)) # "dir" THEN Res(FALSE, fs, w0)
+               ELSE IF kk = "hard" THEN Res(TRUE, fs, w0 \cup {f.p, Ent(fs, f.p).to})
+               ELSE Res(TRUE, Put(fs, E(f.p, "file", <<>>)), w0 \cup {f.p})
+      [] k = "dir" ->         \* mkdir tolerates an existing entry; extractall sets mode and times of directory members at the very end
+            IF Kind(fs, L) = "none" THEN ResL(TRUE, Put(fs, E(L, "dir", <<>>)), w0 \cup {L}, {L})
+            ELSE ResL(TRUE, fs, w0, {L})
+      [] OTHER ->             \* symbolic link: an existing non-directory entry is unlinked first, nothing is followed
+            IF Kind(fs, L) = "dir" THEN Res(FALSE, fs, w0)
+            ELSE Res(TRUE, Put(fs, E(L, "sym", t)), w0 \cup {L})
+
+(* ---- member i of archive inp extracted below directory `base` (tarfile._extract_member) ----------------------------- *)
+ApplyMember(fs, inp, i, base) ==
+    LET m == inp[i]
+        par == Walk(base, Front(m.n), fs, {}, Fuel, TRUE)          \* os.makedirs(upperdirs)
         fs1 == PutDirs(fs, par.made)
     IN IF ~par.ok THEN Res(FALSE, fs1, par.made)
        ELSE LET L == Loc(par.p, Last(m.n))
-                k == Kind(fs1, L)
-            IN CASE m.k = "file" ->
-                      LET f == Final(L, fs1, Fuel)
-                          kk == Kind(fs1, f.p)
-                      IN IF ~f.ok \/ kk = "dir" \/ ~(Kind(fs1, Parent(f.p)) = "dir") THEN Res(FALSE, fs1, par.made)
-                         ELSE IF kk = "hard" THEN Res(TRUE, fs1, par.made \cup {f.p, Ent(fs1, f.p).to})
-                         ELSE Res(TRUE, Put(fs1, E(f.p, "file", <<>>)), par.made \cup {f.p})
-                 [] m.k = "dir" ->
-                      \* mkdir (an existing entry is tolerated), afterwards mode and times are set on what the path names
-                      IF k = "none" THEN Res(TRUE, Put(fs1, E(L, "dir", <<>>)), par.made \cup {L})
-                      ELSE LET f == Final(L, fs1, Fuel)
-                           IN IF f.ok /\ Kind(fs1, f.p) # "none"
-                              THEN Res(TRUE, fs1, par.made \cup {f.p} \cup (IF Kind(fs1, f.p) = "hard" THEN {Ent(fs1, f.p).to} ELSE {}))
-                              ELSE Res(TRUE, fs1, par.made)
-                 [] m.k = "sym" ->
-                      \* an existing non-directory entry is unlinked first, the link is not followed
-                      IF k = "dir" THEN Res(FALSE, fs1, par.made)
-                      ELSE Res(TRUE, Put(fs1, E(L, "sym", m.t)), par.made \cup {L})
-                 [] m.k = "hard" ->
-                      \* os.link(<extraction root>/linkname, L); attributes are then applied to the shared inode
-                      LET r == Walk(base, Front(m.t), fs1, {}, Fuel, FALSE)
-                          X == IF r.ok THEN Final(Loc(r.p, Last(m.t)), fs1, Fuel) ELSE [ok |-> FALSE, p |-> <<>>]
-                      IN IF ~X.ok \/ Kind(fs1, X.p) \notin {"file", "hard"} \/ k # "none" THEN Res(FALSE, fs1, par.made)
-                         ELSE LET inode == IF Kind(fs1, X.p) = "hard" THEN Ent(fs1, X.p).to ELSE X.p
-                              IN Res(TRUE, Put(fs1, E(L, "hard", inode)), par.made \cup {L, inode})
+            IN IF m.k # "hard" THEN Place(fs1, m.k, m.t, L, par.made)
+               ELSE
+                 \* hard link: os.link(<extraction root>/linkname, L) when that exists; the member's mode and times are then
+                 \* applied to the shared inode.  When the link cannot be made tarfile falls back to extracting the earlier
+                 \* member called linkname at L (and applies the hard-link member's attributes to what L names).
+                 LET r == Walk(base, Front(m.t), fs1, {}, Fuel, FALSE)
+                     X == IF r.ok THEN Final(Loc(r.p, Last(m.t)), fs1, Fuel) ELSE [ok |-> FALSE, p |-> <<>>]
+                     exists == X.ok /\ Kind(fs1, X.p) # "none"
+                     linkable == exists /\ Kind(fs1, X.p) \in {"file", "hard"} /\ Kind(fs1, L) = "none"
+                     J == {j \in 1..(i - 1) : inp[j].n = m.t}
+                 IN IF linkable
+                    THEN LET inode == IF Kind(fs1, X.p) = "hard" THEN Ent(fs1, X.p).to ELSE X.p
+                         IN Res(TRUE, Put(fs1, E(L, "hard", inode)), par.made \cup {L, inode})
+                    ELSE IF J = {} THEN Res(exists, fs1, par.made)      \* KeyError, or (link failed) the member is skipped
+                    ELSE LET M == inp[CHOOSE j \in J : \A x \in J : x <= j]
+                         IN IF M.k = "hard" THEN Res(FALSE, fs1, par.made)
+                            ELSE LET r2 == Place(fs1, M.k, M.t, L, par.made)
+                                 IN IF ~r2.ok THEN r2 ELSE Res(TRUE, r2.fs, r2.w \cup Touched(r2.fs, L))
 
 (* ---- one manifest entry deployed below the instance directory ------------------------------------------------------ *)
 ApplyEntry(fs, m) ==
@@ -183,7 +198,7 @@ IsDirSrc(s) == s \in {"pd", "qd"}
 ApplyStage(fs, m) ==
     LET S == SrcPath(m.t)
         L == Append(Target, IF m.t = "arch" THEN "x" ELSE Last(S))
-    IN CASE m.k = "extract" -> ApplyMember(fs, [k |-> "file", n |-> <<"d", "a">>, t |-> <<>>], Target)
+    IN CASE m.k = "extract" -> ApplyMember(fs, <<[k |-> "file", n |-> <<"d", "a">>, t |-> <<>>]>>, 1, Target)
          [] m.k = "link" -> IF Kind(fs, L) # "none" THEN Res(FALSE, fs, {})
                             ELSE Res(TRUE, Put(fs, E(L, "sym", <<"">> \o S)), {L})
          [] m.k = "copy" /\ IsDirSrc(m.t) ->                   \* copytree: the destination must not exist
@@ -195,19 +210,22 @@ ApplyStage(fs, m) ==
                                ELSE IF Kind(fs, f.p) = "dir" THEN Res(TRUE, Put(fs, E(Append(f.p, Last(S)), "file", <<>>)), {Append(f.p, Last(S))})
                                ELSE Res(TRUE, Put(fs, E(f.p, "file", <<>>)), {f.p})
 
-Apply(fs, m) == CASE Mode = "archive" -> ApplyMember(fs, m, Target)
-                  [] Mode = "manifest" -> ApplyEntry(fs, m)
-                  [] OTHER -> ApplyStage(fs, m)
+Apply(fs, inp, i) == CASE Mode = "archive" -> ApplyMember(fs, inp, i, Target)
+                       [] Mode = "manifest" -> ApplyEntry(fs, inp[i])
+                       [] OTHER -> ApplyStage(fs, inp[i])
 
-(* the whole input carried out faithfully: [w: everything written, failed: an operation failed, n: operations completed] *)
-RECURSIVE Run(_, _, _, _)
-Run(fs, inp, i, w) ==
-    IF i > Len(inp) THEN [w |-> w, failed |-> FALSE, fs |-> fs]
-    ELSE LET r == Apply(fs, inp[i])
-         IN IF r.ok THEN Run(r.fs, inp, i + 1, w \cup r.w)
+(* the whole input carried out faithfully: [w: everything written, failed: an operation failed].  The attributes of  *)
+(* directory members (late) are applied when all members have been extracted, to what their paths name THEN.          *)
+Late(fs, late) == UNION {Touched(fs, L) : L \in late}
+RECURSIVE Run(_, _, _, _, _)
+Run(fs, inp, i, w, late) ==
+    IF i > Len(inp) THEN [w |-> w \cup Late(fs, late), failed |-> FALSE, fs |-> fs]
+    ELSE LET r == Apply(fs, inp, i)
+         IN IF r.ok THEN Run(r.fs, inp, i + 1, w \cup r.w, late \cup r.late)
             ELSE [w |-> w \cup r.w, failed |-> TRUE, fs |-> r.fs]
+Outcome(inp) == Run(Tree0, inp, 1, {}, {})
 
-Hostile(inp) == \E p \in Run(Tree0, inp, 1, {}).w : ~Inside(p)
+Hostile(inp) == \E p \in Outcome(inp).w : ~Inside(p)
 
 ---------------------------------------------------------------------------
 (* the input space *)
@@ -234,23 +252,23 @@ Rejects(inp) == CASE Guard = "resolve" -> Hostile(inp)
                   [] OTHER -> FALSE
 
 ---------------------------------------------------------------------------
-VARIABLES input, pc, i, fs, writes
-vars == <<input, pc, i, fs, writes>>
+VARIABLES input, pc, i, fs, writes, late
+vars == <<input, pc, i, fs, writes, late>>
 
 Init == /\ input \in Inputs
-        /\ pc = "guard" /\ i = 1 /\ fs = Tree0 /\ writes = {}
+        /\ pc = "guard" /\ i = 1 /\ fs = Tree0 /\ writes = {} /\ late = {}
 
 Reject == /\ pc = "guard" /\ Rejects(input)
-          /\ pc' = "rejected" /\ UNCHANGED <<input, i, fs, writes>>
+          /\ pc' = "rejected" /\ UNCHANGED <<input, i, fs, writes, late>>
 Accept == /\ pc = "guard" /\ ~Rejects(input)
-          /\ pc' = "run" /\ UNCHANGED <<input, i, fs, writes>>
+          /\ pc' = "run" /\ UNCHANGED <<input, i, fs, writes, late>>
 Step == /\ pc = "run" /\ i <= Len(input)
-        /\ LET r == Apply(fs, input[i])
-           IN /\ fs' = r.fs /\ writes' = writes \cup r.w
+        /\ LET r == Apply(fs, input, i)
+           IN /\ fs' = r.fs /\ writes' = writes \cup r.w /\ late' = late \cup r.late
               /\ IF r.ok THEN i' = i + 1 /\ pc' = "run" ELSE i' = i /\ pc' = "failed"
         /\ UNCHANGED input
 Finish == /\ pc = "run" /\ i > Len(input)
-          /\ pc' = "done" /\ UNCHANGED <<input, i, fs, writes>>
+          /\ pc' = "done" /\ writes' = writes \cup Late(fs, late) /\ UNCHANGED <<input, i, fs, late>>
 Next == Reject \/ Accept \/ Step \/ Finish
 Spec == Init /\ [][Next]_vars
 
@@ -259,16 +277,16 @@ Confined == \A p \in writes : Inside(p)
 (* the specified guard loses nothing: an input that is not hostile is carried out *)
 NoOverRejection == (pc = "rejected" /\ Guard = "resolve") => Hostile(input)
 (* the incremental machine and the recursive definition agree (sanity of the specification itself) *)
-RunAgrees == (pc \in {"done", "failed"}) => writes = Run(Tree0, input, 1, {}).w
+RunAgrees == (pc \in {"done", "failed"}) => writes = Outcome(input).w
 TypeOK == pc \in {"guard", "run", "rejected", "failed", "done"} /\ i \in 1..(MaxMembers + 1)
 
 (* Only locations below the sandbox root that did not exist before, for the comparison with the real tree *)
-Created(inp) == LET r == Run(Tree0, inp, 1, {}) IN {e \in r.fs : ~(e \in Tree0) /\ ~(\E o \in Tree0 : o.p = e.p)}
+Created(inp) == LET r == Outcome(inp) IN {e \in r.fs : ~(e \in Tree0) /\ ~(\E o \in Tree0 : o.p = e.p)}
 Plain(inp) == \A j \in 1..Len(inp) : /\ inp[j].k \in {"file", "dir", "copy"}
                                      /\ \A x \in 1..Len(inp[j].n) : inp[j].n[x] \notin {"..", ""}
 
 EmitCase == (Emit /\ pc = "guard") =>
-    LET r == Run(Tree0, input, 1, {})
+    LET r == Outcome(input)
     IN PrintT(ToJson([inp |-> input, hostile |-> Hostile(input), failed |-> r.failed,
                       outside |-> {p \in r.w : ~Inside(p)},
                       created |-> {[p |-> e.p, k |-> e.k] : e \in Created(input)},
